@@ -73,7 +73,25 @@ def check_extreme(ctx, name, reducer, other):
 def check(ctx):
     check_extreme(ctx, "best::Best", "Iterator::max", "Iterator::min")
     check_extreme(ctx, "worst::Worst", "Iterator::min", "Iterator::max")
+    check_tournament(ctx, None)
 
+
+def check_tournament(ctx, only_rule):
+    """only_rule: when called from C06, every obligation is filed under that rule id"""
+    if only_rule:
+        real = ctx
+        class _Proxy:
+            def __getattr__(self, n):
+                return getattr(real, n)
+            def ok(self, rule, *a, **k):
+                return real.ok(only_rule, *a, **k)
+            def bad(self, rule, *a, **k):
+                return real.bad(only_rule, *a, **k)
+            def check(self, cond, rule, *a, **k):
+                return real.check(cond, only_rule, *a, **k)
+            def floor(self, rule, *a, **k):
+                return real.floor(only_rule, *a, **k)
+        ctx = _Proxy()
     fn = ctx.fn(SEL % "tournament::Tournament")
     paths = [p for p in ctx.paths(fn) if p.end == "return"]
     ok_paths = []
